@@ -19,7 +19,8 @@ RESERVED = {"nothing", "default", "options", "repeat", "attrs", "CONTEXTS", "mac
 HOSTILE = ['<b>&"\'', 'a<script>alert(1)</script>', '"onmouseover="x', "'", "&amp;", "]]>", "<!--", "-->", "</p>",
            "<zq9 x=\"1\">", "&lt;", "a&b", "<", ">", "\"", "x\" y=\"z", "é<ü>", "<?pi?>", "&#60;i&#62;", "=", "/>",
            # values that look escaped at source (a complete reference) AND carry raw markup
-           "Fish &amp; Chips<b>x</b>", "it&#39;s <i>", "&lt;<zq9>", "&#x3c;<u a=\"1\">", "<em>&nbsp;</em>"]
+           "Fish &amp; Chips<b>x</b>", "it&#39;s <i>", "&lt;<zq9>", "\"; </script><img onerror=x>", "</style><b>x</b>",
+           "</textarea><i>x</i>", "</title><u>", "&#x3c;<u a=\"1\">", "<em>&nbsp;</em>"]
 # fragments for string-content variation: references, markup, separators
 FRAGMENTS = ["</script>", "</style>", "</textarea>", "</title>", "\";", "';", "<img onerror=x>", "&amp;", "&#60;", "&#x3e;", "&lt;", "&quot;", "<b>", "</b>", "<i x=\"", "<", ">", "&", "\"", "a", "b", ";", "=", "/", " ", "#",
              "<script>", "</p>", "<!--", "-->"]
@@ -470,8 +471,9 @@ def vary_strings(rng, spec, hostile=True):
         # *length* of str(list) / str(dict) values (lengths must stay equal in the comparison)
         alphabet = "<>&\"ab=/ " if hostile else "abcxyz"
         if hostile and n >= 4 and rng.random() < 0.5:
-            # whole fragments (complete references next to raw markup), cut to the same length
-            out = ""
+            # whole fragments (complete references next to raw markup), cut to the same length; long values start with
+            # the end tag of a raw-text element half of the time
+            out = rng.choice(["</script>", "</style>", "</textarea>", "</title>"]) + "<b>" if (n >= 12 and rng.random() < 0.5) else ""
             while len(out) < n:
                 out += rng.choice(FRAGMENTS)
             return ["s", out[:n]]
@@ -1031,6 +1033,26 @@ def gen_template(rng, opts, libmacros=(), nmacros=None, ctx_names=None, macro_pr
         for _ in range(rng.choice([0, 1, 1, 2])):
             for n in gen_scenario(rng, opts, sc):
                 body.insert(rng.randrange(len(body) + 1), n)
+    if opts.metal and opts.only is None and macro_prefix == "m" and rng.random() < 0.3:
+        # slot scoping: a macro used WITHOUT fill-slot inside another macro's body (before / after / around that macro's
+        # own slots) keeps its defaults, whatever slots the outer call fills; slot names are shared between the macros
+        sl = rng.sample(["s", "t", "u"], 2)
+        za = Elem("div", attrs=[("class", "box")], metal={"define-macro": "za"},
+                  children=[Elem("h2", metal={"define-slot": sl[0]}, children=[Text("box-default-" + sl[0])]),
+                            Elem("p", metal={"define-slot": sl[1]}, children=[Text("box-default-" + sl[1])])])
+        inner_use = Elem("div", metal={"use-macro": self_path + "za"}, children=[Text("sidebar")])
+        if rng.random() < 0.3:
+            inner_use.children = [Elem("p", metal={"fill-slot": sl[1]}, children=[Text("inner-fill")])]
+        own = [Elem("h1", metal={"define-slot": sl[0]}, children=[Text("page-default")])]
+        if rng.random() < 0.4:
+            own.append(Elem("i", metal={"define-slot": sl[1]}, children=[Text("page-default2")]))
+        kids = own + [inner_use]
+        rng.shuffle(kids)
+        zb = Elem("div", attrs=[("class", "page")], metal={"define-macro": "zb"}, children=kids)
+        fills = [Elem("h1", metal={"fill-slot": x}, children=[Text("filled-" + x)]) for x in rng.sample(sl, rng.choice([0, 1, 1, 2]))]
+        call = Elem("section", metal={"use-macro": self_path + "zb"}, children=fills or [Text("nothing")])
+        macro_elems += [za, zb]
+        body.insert(rng.randrange(len(body) + 1), call)
     # macros may be placed before or after the body (use before definition is legal)
     if rng.random() < 0.5:
         nodes = macro_elems + body
